@@ -72,6 +72,38 @@ func (n *node) build() rueidis.RedisMessage {
 	return rueidis.VerifMsg(n.typ, "", 0, arr, attrs)
 }
 
+// expect renders, in VerifDump's format, what a round trip must give back (cf. `norm` in
+// lean/Rv/Model/CacheMarshal.lean): same tree, type bytes, strings, integers; attributes dropped; root marked.
+func (n *node) expect(root bool) string {
+	attrs := "-"
+	if root {
+		attrs = "cache"
+	}
+	switch {
+	case strings.IndexByte(intTypes, n.typ) >= 0:
+		v := n.i
+		if n.kind == 'S' {
+			v = int64(len(n.s))
+		} else if n.kind == 'A' {
+			v = int64(len(n.kids))
+		}
+		return fmt.Sprintf("%d:-:%d:[]:%s", n.typ, v, attrs)
+	case strings.IndexByte(aggTypes, n.typ) >= 0:
+		if n.kind != 'A' {
+			return fmt.Sprintf("%d:-:0:[]:%s", n.typ, attrs)
+		}
+		parts := make([]string, len(n.kids))
+		for i, k := range n.kids {
+			parts[i] = k.expect(false)
+		}
+		return fmt.Sprintf("%d:-:%d:[%s]:%s", n.typ, len(n.kids), strings.Join(parts, ","), attrs)
+	}
+	if n.kind != 'S' {
+		return fmt.Sprintf("%d:-:0:[]:%s", n.typ, attrs)
+	}
+	return fmt.Sprintf("%d:%s:%d:[]:%s", n.typ, hx(n.s), len(n.s), attrs)
+}
+
 func parseNodes(ws []string) (*node, []string) {
 	w := ws[0]
 	ws = ws[1:]
@@ -365,8 +397,17 @@ func (c *Ctx) marshalCase(n *node, everyK bool) {
 	nt := hasAgg(n) || n.attr != nil
 	c.emitM("sz"+tree, nt)
 	c.emitM("ms "+hx(ttl)+tree, nt)
-	c.emitM("!rt "+hx(ttl)+tree, nt)
-	c.emitM("!tr "+hx(ttl)+tree, nt)
+	// the harness judges the two oracle lines itself too, so that a failing input is reported with a replay
+	var exp int64
+	for i := 6; i >= 0; i-- {
+		exp = exp<<8 | int64(ttl[i])
+	}
+	if a, want := c.emitM("!rt "+hx(ttl)+tree, nt), fmt.Sprintf("ok %s %d", n.expect(true), exp); a != want {
+		c.Fail("marshal:roundtrip:"+shortKey(tree), "!rt "+hx(ttl)+tree, fmt.Sprintf("unmarshal(marshal m) is %.300q, expected %.300q", a, want))
+	}
+	if a := c.emitM("!tr "+hx(ttl)+tree, nt); !strings.HasPrefix(a, "allerr ") {
+		c.Fail("marshal:truncation:"+shortKey(tree), "!tr "+hx(ttl)+tree, "a truncated buffer is not rejected with ErrCacheUnmarshal: "+a)
+	}
 	buf := realMarshal(n, ttl, 0)
 	if m := n.build(); m.CacheSize() != len(buf) {
 		c.Fail("marshal:size-mismatch", "sz"+tree, fmt.Sprintf("CacheSize=%d but CacheMarshal wrote %d bytes", m.CacheSize(), len(buf)))
